@@ -370,7 +370,11 @@ pub fn check_built_metrics(ctx: &mut Ctx, rng: &mut Rng, case: u64) {
                 d.u64(case);
                 d.u64(gid as u64);
                 d.dbg(&coords);
-                ctx.nontrivial(d.finish());
+                let dg = d.finish();
+                ctx.count("metrics_nonzero_delta_with_partial_scalar", 1);
+                if dg & 0xf == 0 {
+                    ctx.nontrivial(dg);
+                }
             }
         }
     }
